@@ -3,14 +3,16 @@
  R1 both irregularity tests (non-monotone re-scaled turnout; |batch margin| > 1) return early, before any estimate is computed;
  R2 each early return is a 101-row frame (percents 0..100) of NaN estimates / corrections with its own error_type;
  R3 est(p) = (m_i v_i + b_i (p - v_i)) / p  with i = last observation <= p  (searchsorted(side='right') - 1, clipped to the valid
-    range), b_i the margin of the batch that follows observation i, 0 where p = 0; the weights v_i/p and (p - v_i)/p are a convex
-    combination because v_i <= p by the choice of i;
- R4 before the first observation (i = -1): v = 0, m = b = first observed margin, so est = first observed margin;
+    range), b_i the margin of the batch that follows observation i; the weights v_i/p and (p - v_i)/p are a convex combination
+    because v_i <= p by the choice of i;
+ R4 before the first observation (i = -1): v = 0, m = b = first observed margin, so est = first observed margin; at p = 0, where
+    there is nothing to average, the value is the out buffer of the division, which must be a float copy of b_i (R4.zero-percent);
  R5 correction = last observed margin - est; one row per whole percent 0..int(max percent); the percent axis is the turnout
-    re-scaled to the latest reported percent;
+    re-scaled to the latest reported percent, computed in a buffer that is floating point whatever the dtype of the vote counts
+    (R5.rescale-float: zeros_like(<integer column>) + casting='unsafe' truncates every share below 1 to 0);
  R6 _extrapolate_unit_margin averages, per nonreporting unit, only corrections that are non-null and whose percent is within
     max_dist_to_observed of an actual observation.
-Not decided: numeric range for given data; the value at p = 0 (observation O2: it is 0, not the first observed margin).
+Not decided: numeric range for given data.
 """
 from __future__ import annotations
 
@@ -42,6 +44,34 @@ def _colarr(t):
     if t[0] == "sub" and t[2][0] == "const" and isinstance(t[2][1], str) and _root(t[1]) == DF:
         return t[2][1]
     return None
+
+
+def _is_float_dtype(t):
+    return t in (("global", "float"), ("global", "numpy.float64"), ("global", "numpy.float_"), ("const", "float"), ("const", "float64"),
+                 ("global", "numpy.double"))
+
+
+def _float_copy_of(t):
+    """x.astype(float) / numpy.array(x, dtype=float) / numpy.asarray(x, dtype=float) -> x ; else None"""
+    if t[0] == "call" and t[1][0] == "attr" and t[1][2] == "astype" and t[2] and _is_float_dtype(t[2][0]):
+        return t[1][1]
+    if t[0] == "call" and t[1][0] == "global" and t[1][1] in ("numpy.array", "numpy.asarray") and t[2] and _is_float_dtype(dict(t[3]).get("dtype", ("const", None))):
+        return t[2][0]
+    return None
+
+
+def _float_buffer(t):
+    """Is `t` provably a floating-point array whatever the dtype of the data? (zeros_like(x) inherits x's dtype and is not)"""
+    if _float_copy_of(t) is not None:
+        return True
+    if t[0] == "call" and t[1][0] == "global":
+        name = t[1][1]
+        dt = dict(t[3]).get("dtype")
+        if name in ("numpy.zeros_like", "numpy.ones_like", "numpy.empty_like", "numpy.full_like"):
+            return dt is not None and _is_float_dtype(dt)
+        if name in ("numpy.zeros", "numpy.ones", "numpy.empty"):
+            return dt is None or _is_float_dtype(dt)
+    return False
 
 
 def check(ctx):
@@ -165,13 +195,23 @@ def check(ctx):
                     return f"{name}_last"
         return None
 
-    # est = divide(NUM, PERCS, where=PERCS != 0, out=zeros_like(NUM))
+    # est = divide(NUM, PERCS, where=PERCS != 0, out=<float copy of the batch-margin selection>)
     okd = (EST[0] == "call" and ir.show(EST[1]).endswith("divide") and len(EST[2]) == 2 and EST[2][1] == PERCS)
     kw = dict(EST[3]) if okd else {}
-    okd = okd and kw.get("where") == ("cmp", "!=", PERCS, ("const", 0)) and kw.get("out", ("const", None))[0] == "call" \
-        and ir.show(kw["out"][1]).endswith("zeros_like")
-    ctx.ob("C17.R3.divide", f"{g.qualname}|est = numerator / p (0 where p = 0)", okd, g.where(main[0][2]),
-           "est = numerator / p with p = 0 mapped to 0" if okd else f"estimate is {ir.show(EST, maxdepth=3)}")
+    okd = okd and kw.get("where") == ("cmp", "!=", PERCS, ("const", 0)) and kw.get("out") is not None
+    ctx.ob("C17.R3.divide", f"{g.qualname}|est = numerator / p where p != 0", okd, g.where(main[0][2]),
+           "est = numerator / p for p != 0 (p = 0 keeps the value of the out buffer)" if okd else f"estimate is {ir.show(EST, maxdepth=3)}")
+    if okd:
+        # value at p = 0 (no votes to average over): the out buffer; it has to be the margin of the batch that follows, which
+        # before the first observation is the first observed margin (statement: 'equals the first observed margin before the
+        # first observation', for every percent from 0)
+        out = kw["out"]
+        base = _float_copy_of(out)
+        lf = leaf(base) if base is not None else None
+        okz = lf == "W[results_normalized_margin_first|batch_margin_i]"
+        ctx.ob("C17.R4.zero-percent", f"{g.qualname}|est at 0 percent = margin of the following batch", okz, g.where(main[0][2]),
+               "at p = 0 the estimate is the following batch's margin (the first observed margin if nothing was observed yet), as a float copy"
+               if okz else f"at p = 0 the estimate is the out buffer {ir.show(out, maxdepth=3)}: not the first observed margin / following batch margin")
     if okd:
         N = symexpr.Normalizer(leaf=leaf)
         got = N.norm(EST[2][0])
@@ -206,6 +246,16 @@ def check(ctx):
     pe = cols.get("percent_expected_vote")
     okpe = pe is not None and ir.show(pe, maxdepth=8).startswith("(numpy.divide(df['results_turnout'].values, df['results_turnout'].values[-1]") \
         and ir.show(pe, maxdepth=8).endswith("* df['percent_expected_vote'].values[-1])")
+    # the ratio is written into an out= buffer with casting='unsafe': the buffer must be floating point whatever the dtype of
+    # the vote counts (zeros_like(<int column>) truncates every share < 1 to 0 and collapses the history onto 0 percent)
+    divs = [x for x in ir.walk(pe)] if pe is not None else []
+    divs = [x for x in divs if x[0] == "call" and ir.show(x[1]).endswith("divide") and dict(x[3]).get("out") is not None]
+    for x in divs:
+        okb = _float_buffer(dict(x[3])["out"])
+        ctx.ob("C17.R5.rescale-float", f"{g.qualname}|turnout share computed in floating point", okb, g.where(),
+               "the share turnout / final turnout is written into a float buffer" if okb
+               else f"the share turnout / final turnout is written into {ir.show(dict(x[3])['out'], maxdepth=3)} with casting='unsafe': for integer "
+                    f"vote counts every share below 1 is truncated to 0, so all versions but the last sit at 0 percent")
     ctx.ob("C17.R5.rescale", f"{g.qualname}|percent axis = turnout / final turnout * latest percent", okpe, g.where(),
            "percent_expected_vote is re-scaled from the turnout history to the latest reported percent" if okpe
            else f"percent axis is {ir.show(pe, maxdepth=5) if pe else None}")
